@@ -35,6 +35,7 @@ func c09Case(t *rapid.T, test string, many bool) {
 			wo.MinExtraCands, wo.MaxExtraCands = 86, 95
 			wo.Frozen, wo.Orders, wo.Votes = false, false, false
 			wo.MinStakePd, wo.MaxStakePd = 2, 6
+			wo.SpreadCandidateIDs = rapid.Bool().Draw(t, "spreadIDs")
 			prof = stakingProfile()
 			prof["declare"], prof["candOn"], prof["candOff"] = 10, 6, 6
 		}
@@ -76,10 +77,10 @@ func c09Case(t *rapid.T, test string, many bool) {
 			nb = 12 // a block of a 100-candidate world costs ten times an ordinary one
 		}
 		for i := 0; i < nb; i++ {
-			// restart before this block? (possibly several times in a row)
-			// (never before the first committed block: InitChain leaves uncommitted validator-set
-			// changes in memory, and a consensus engine cannot resume from that point anyway)
-			if i > 0 && sim.U(t, "restart", 4) == 0 {
+			// restart before this block? (possibly several times in a row; also right after InitChain,
+			// before the first block: the consensus engine does not send InitChain again, because the
+			// application already reports the genesis height)
+			if sim.U(t, "restart", 4) == 0 {
 				k := 1 + sim.U(t, "restartTimes", 3)
 				for j := 0; j < k; j++ {
 					h.N.Restart()
